@@ -508,6 +508,113 @@ class Runner:
                                {"path": path})
 
 
+# ----------------------------------------------------------------------------- batches with ONE special row
+SPECIALS = {
+    "zero-growth": ("exponential",),
+    "equal-adjacent-theta": ("skyride", "skygrid", "linear"),
+    "coal-on-grid": ("skygrid", "linear"),
+    "tied-heights": ("constant", "exponential", "skyride", "skygrid", "linear"),
+}
+
+
+def batched_special(R: Runner, rng, kind, special, n):
+    """a batch in which exactly ONE row holds a special value (growth exactly 0, two adjacent population sizes equal, a
+    coalescent time exactly on a grid point, tied heights): a data-dependent decision taken once for the whole tensor
+    (`torch.any`, `unique`, `nonzero` feeding a Python branch) would change the OTHER rows. Every other row must be the
+    Kingman density of its own slice (and the Lean model's value); the special row is checked when it is finite."""
+    import torch
+
+    B = rng.randint(2, 4)
+    s0 = rng.randrange(B)
+    base = make_case(rng, kind, n, flat=False)
+    rows = []
+    for s in range(B):
+        gen = None
+        if special == "tied-heights":
+            for _try in range(50):
+                gen = G.genealogy(rng, n, q=3, tie_p=0.9 if s == s0 else 0.0, coal_tie_samp_p=0.6 if s == s0 else 0.0)
+                allt = gen["samp"] + gen["coal"]
+                if s == s0 or len(set(allt)) == len(allt):
+                    break
+        c = make_case(rng, kind, n, gen=gen, flat=False)
+        if "grid" in base:
+            c["grid"] = base["grid"]
+            c["thetas"] = [G.pow2(rng) for _ in base["thetas"]]
+            for i in range(1, len(c["thetas"])):
+                while c["thetas"][i] == c["thetas"][i - 1]:
+                    c["thetas"][i] = G.pow2(rng)
+        if kind == "skyride":
+            for i in range(1, len(c["thetas"])):
+                while c["thetas"][i] == c["thetas"][i - 1]:
+                    c["thetas"][i] = G.pow2(rng)
+        rows.append(c)
+    sp = rows[s0]
+    if special == "zero-growth":
+        sp["growth"] = F(0)
+    elif special == "equal-adjacent-theta":
+        if len(sp["thetas"]) < 2:
+            return
+        i = rng.randrange(len(sp["thetas"]) - 1)
+        sp["thetas"][i + 1] = sp["thetas"][i]
+    elif special == "coal-on-grid":
+        c0 = rng.choice(sp["coal"])
+        grid = sorted(set(base["grid"]) | {c0})
+        for c in rows:
+            c["grid"] = grid
+            c["thetas"] = [G.pow2(rng) for _ in range(len(grid) + 1)]
+            for i in range(1, len(c["thetas"])):
+                while c["thetas"][i] == c["thetas"][i - 1]:
+                    c["thetas"][i] = G.pow2(rng)
+        base = dict(base, grid=grid)
+    # the non-special rows must be clear of the special situations
+    for s, c in enumerate(rows):
+        if s == s0:
+            continue
+        if "grid" in c and any(gp in c["coal"] for gp in c["grid"]):
+            return
+        if len(set(c["coal"])) < len(c["coal"]):
+            return
+    cls = type(distribution(base)).__name__
+    R.ck.case(key=("batch-special", kind, special, n, B, s0, tuple(sp["coal"])), bucket=f"batched-special/{kind}/{special}")
+    try:
+        th = T2([c["thetas"] for c in rows])
+        gr = T2([[c["growth"]] for c in rows]) if kind == "exponential" else None
+        hs = T2([c["samp"] + c["coal"] for c in rows])
+        out = [float(x) for x in distribution(base, thetas=th, growth=gr).log_prob(hs).reshape(-1).tolist()]
+    except Exception as e:
+        R.violation(f"{cls}.log_prob:batch-special:{special}:raises",
+                    f"{cls}.log_prob raises on a batch whose row {s0} holds the special value '{special}': {type(e).__name__}: {str(e)[:120]}",
+                    sp, {"batch": [enc_case(c) for c in rows], "special_row": s0}, size=n)
+        return
+    if len(out) != B:
+        R.violation(f"{cls}.log_prob:batch-special:{special}:shape", f"{len(out)} values for {B} rows", sp, size=n)
+        return
+    for s, c in enumerate(rows):
+        v = out[s]
+        if s == s0:
+            if not math.isfinite(v):
+                R.ck.bucket(f"batched-special/{special}/special-row-not-finite")
+                continue
+            if special == "coal-on-grid":
+                continue  # either one-sided value is admissible there (probe_ties)
+        if special == "zero-growth" and s == s0:
+            o, scale = oracle_value(dict(c, kind="constant"))
+        else:
+            o, scale = oracle_value(c)
+        if not close(v, o, TOL_ORACLE, scale):
+            R.violation(f"{cls}.log_prob:batch-special:{special}",
+                        f"{cls}.log_prob on a batch of {B} rows in which row {s0} holds '{special}': row {s} = {v!r}, Kingman density of that slice = {o!r}",
+                        c, {"batch": [enc_case(x) for x in rows], "special_row": s0, "row": s, "impl": v, "oracle": o}, size=n)
+        elif s != s0:
+            req = model_request(c, c["samp"], c["coal"])
+            if req and R.drv:
+                m = R.drv.ask(req)
+                tol = TOL_TRANS if kind in ("exponential", "linear") else TOL_EXACT
+                if m == "bad-op" or not close(v, h2f(m), tol, scale):
+                    R.ck.mismatch("row of a special-value batch differs from the model on the slice",
+                                  {"case": enc_case(c), "row": s, "special": special, "impl": v, "model": m})
+
+
 # ----------------------------------------------------------------------------- relaxed skygrid (temperature)
 def soft_check(R: Runner, rng, n):
     """SoftPiecewiseConstantCoalescentGrid with a temperature: Lean model (TTModel/C08_Soft.lean) vs torchtree, and the
@@ -927,6 +1034,12 @@ def run(ck: Check):
         for n in ([2, 3, 4, 6, 9, 14] if not ck.thorough() else list(range(2, 26))):
             for _ in range(2 if not ck.thorough() else 4):
                 R.guard('soft_check', soft_check, R, rng, n)
+        # batches straddling every data-dependent situation: ONE special row, all other rows checked
+        for n in ([2, 3, 5, 8] if not ck.thorough() else [2, 3, 4, 5, 8, 13, 21]):
+            for special, kinds in SPECIALS.items():
+                for kind in kinds:
+                    for _ in range(2 if not ck.thorough() else 4):
+                        R.guard('batched_special', batched_special, R, rng, kind, special, n)
         # live model objects through update histories
         live_sizes = [2, 3, 4, 6, 9] if not ck.thorough() else [2, 3, 4, 5, 6, 8, 12, 20]
         for n in live_sizes:
@@ -1007,6 +1120,28 @@ def replay(path: str) -> int:
         if not R.fail:
             print("ok")
         return 1 if R.fail else 0
+    if "batch" in obj and "special_row" in obj:
+        rows = [dec_case(c) for c in obj["batch"]]
+        kind = rows[0]["kind"]
+        th = T2([c["thetas"] for c in rows])
+        gr = T2([[c["growth"]] for c in rows]) if kind == "exponential" else None
+        hs = T2([c["samp"] + c["coal"] for c in rows])
+        print("batch of", len(rows), "rows; special row:", obj["special_row"], "-", obj.get("what"))
+        try:
+            out = [float(x) for x in distribution(rows[0], thetas=th, growth=gr).log_prob(hs).reshape(-1).tolist()]
+        except Exception as e:
+            print("implementation raises:", type(e).__name__, e)
+            return 1
+        bad = False
+        for s_, c in enumerate(rows):
+            if s_ == obj["special_row"]:
+                print(f"row {s_} (special): implementation {out[s_]!r}")
+                continue
+            o, scale = oracle_value(c)
+            ok_ = close(out[s_], o, TOL_ORACLE, scale)
+            bad = bad or not ok_
+            print(f"row {s_}: implementation {out[s_]!r}  Kingman oracle {o!r}  {'ok' if ok_ else 'VIOLATES'}")
+        return 1 if bad else 0
     case = dec_case(obj["case"])
     order = obj.get("order")
     samp, coal = case["samp"], case["coal"]
